@@ -97,6 +97,8 @@ def one_run(ctx, bins, peer, rid, setup, conf_name, run, skip, max_servers, goma
     open(confp, "w").write(CONFIGS[conf_name])
     evp = os.path.join(d, "events.jsonl")
     script = {"default": "canned", "probe": True, "answer_delay_max_ms": 20, "seed": seed, "mode": "logging", "start_delay_ms": (seed * 37) % 300, "stop_delay_ms": (seed * 53) % 400}
+    if seed % 2 == 0:
+        script["omit_host"] = True  # the host field of the server's answer is optional: the runner fills in its default
     if fail_key:
         script["fail_start_for"] = [fail_key]
     args = ["-v", "--conf", confp, "--mode", setup, "--max-servers", str(max_servers)]
@@ -209,6 +211,8 @@ def check_run(ctx, res, sel, setup, max_servers, fail_key, rid, stats, desc):
         else:
             if e["protocol"] != info["protocol"] or e["http_version"] != info["version"] or e["tls"] != info["tls"] or e["client_cert"] != info["certs"]:
                 ctx.add_violation("c05/request-axes/" + setup, "request of %r carries protocol=%s version=%s tls=%s certs=%s, permutation says %s" % (name, e["protocol"], e["http_version"], e["tls"], e["client_cert"], info), w)
+            if not e.get("host"):
+                ctx.add_violation("c05/request-without-host/" + setup, "request of %r was handed to the client without a host (server answered %s)" % (name, "without the optional host field" if res["script"].get("omit_host") else "with a host"), w)
             if e["name_header"] != name:
                 ctx.add_violation("c05/test-name-header/" + setup, "request of %r carries x-test-case-name %r" % (name, e["name_header"]), w)
             if not str(e.get("probe", "")).startswith("ok"):
